@@ -13,7 +13,9 @@ from ..sched.scenario import Scenario, execute, MON, DAY
 LEVEL = 'exploration'
 
 NAMES = ['a', 'a b', '"q"', "it's", '{x}', '}}', 'a}} --> 9{{b', '<b>', '</script>', '</div>', '$x', '${y}', 'a:b', 'ü—名',
-         '&amp;', '<!--', 'a<b', '{{', ']]>', '\\', '%%c', "'; alert(1); '"]
+         '&amp;', '<!--', 'a<b', '{{', ']]>', '\\', '%%c', "'; alert(1); '",
+         # the names of the page templates' own placeholders
+         'in $styles x', '$src', '${styles}', '$gantt_data $columns', '$task_classes_def', '$today_marker $scale $root $readonly $row_height']
 
 
 class Doc(HTMLParser):
